@@ -9,6 +9,7 @@ import (
 	"fmt"
 	"os"
 	"path/filepath"
+	"strings"
 	"sync"
 	"time"
 )
@@ -294,4 +295,25 @@ func vfBetweenFiles(dir string, k int) bool {
 		return last != nil && last.Typ == "MD5"
 	}
 	return false
+}
+
+// vfInProbingPhase says whether message k of a direction is one of the first few data chunks (or their acknowledgements) of the
+// first file: the phase in which the sender still probes the buffer size and waits for each acknowledgement.
+func vfInProbingPhase(dir string, k int) bool {
+	msgs := vfLastDry.c2s
+	if dir == "s2c" {
+		msgs = vfLastDry.s2c
+	}
+	if k < 0 || k >= len(msgs) {
+		return false
+	}
+	// position of the first data chunk / first data acknowledgement in this direction
+	first := -1
+	for i, m := range msgs {
+		if m.Typ == "DATA" || m.Typ == "BIN" || (m.Typ == "SUCC" && strings.Contains(m.Txt, "/")) {
+			first = i
+			break
+		}
+	}
+	return first >= 0 && k >= first && k < first+8
 }
